@@ -204,7 +204,7 @@ impl Req {
     fn ilist(&self, k: &str) -> Vec<i64> {
         self.list(k)
             .iter()
-            .map(|s| if s == "e" { -1 } else { s.parse().unwrap_or(0) })
+            .map(|s| if s == "e" { -1 } else if s == "z" { 0 } else { s.parse::<i64>().unwrap_or(1).max(1) })
             .collect()
     }
 }
@@ -452,6 +452,30 @@ fn do_raw(r: &Req) -> String {
                         snapshot(&log, &st)
                     ));
                 }
+                "H" => {
+                    // set_custom_dictionary_with_optional_precomputed_hasher with a hasher built the
+                    // way CompressMulti builds it, through the allocator the state owns
+                    use brotli::enc::backward_references::AnyHasher;
+                    let n: usize = f[1].parse().unwrap_or(0);
+                    let n = n.min(dict.len());
+                    let mut p = st.params.clone();
+                    brotli::enc::encode::SanitizeParams(&mut p);
+                    let mut h = UnionHasher::Uninit;
+                    brotli::enc::encode::HasherSetup(&mut st.m8, &mut h, &mut p, &[], 0, 0, 0);
+                    let overlap = h.StoreLookahead().wrapping_sub(1);
+                    if n > overlap {
+                        h.BulkStoreRange(&dict[..n], usize::MAX, 0, n - overlap);
+                    }
+                    let built = log.lock().unwrap().ev.len();
+                    st.set_custom_dictionary_with_optional_precomputed_hasher(n, &dict[..n], h);
+                    out.push(format!(
+                        "H:{}:{}|1|{}|{}",
+                        n,
+                        built,
+                        take_events(&log),
+                        snapshot(&log, &st)
+                    ));
+                }
                 "S" => {
                     let o = opcode(f[1]);
                     let nin: usize = f[2].parse().unwrap_or(0);
@@ -553,7 +577,7 @@ impl SliceWrapperMut<u8> for Buf {
         &mut self.0[..]
     }
 }
-/// per call: -1 = Err, k > 0 = accept at most k bytes; past the end of the script: accept all.
+/// per call: -1 = Err, 0 = Ok(0), k > 0 = accept at most k bytes; past the end of the script: accept all.
 struct SW {
     script: Vec<i64>,
     k: usize,
@@ -575,7 +599,10 @@ impl Write for SW {
         if s < 0 {
             return Err(io::Error::new(io::ErrorKind::Other, "scripted write error"));
         }
-        let n = (s.max(1) as usize).min(b.len());
+        if s == 0 {
+            return Ok(0); // a sink that accepts nothing
+        }
+        let n = (s as usize).min(b.len());
         self.n += n;
         self.calls.lock().unwrap().1 += n;
         Ok(n)
@@ -804,12 +831,18 @@ fn do_copy(r: &Req) -> String {
         Ok(_) => "fin".to_string(),
         Err(e) => format!("{:?}", e.kind()),
     };
+    let rerr = sr.script.iter().take(sr.k).any(|x| *x < 0);
+    let werr = sw.script.iter().take(sw.k).any(|x| *x < 0);
+    let wzero = sw.script.iter().take(sw.k).any(|x| *x == 0);
     format!(
-        "OK copy|{}:mb{}:r{}:w{}|{}|-",
+        "OK copy|{}:mb{}:r{}:w{}:re{}:we{}:wz{}|{}|-",
         exit,
         nmb,
         sr.k,
         sw.k,
+        rerr as u8,
+        werr as u8,
+        wzero as u8,
         take_events(&log2)
     )
 }
